@@ -80,3 +80,22 @@ Proof.
 Qed.
 
 End Cal.
+
+(* the three outcomes of the public call: TypeError for a non-Spectrum, ValueError for a spectrum whose range
+   does not cover the instrument's, otherwise one calibrated array per accommodated spectrum *)
+Lemma calibrate_call_spec integral mn mx w2p a :
+  match a with
+  | ANotSpectrum => calibrate_call integral mn mx w2p a = Err ErrType
+  | ASpectrum smin smax xs ys =>
+    (smin <= mn -> mx <= smax ->
+       calibrate_call integral mn mx w2p a = Ok (map (calibrate_arr (integral xs ys)) w2p)) /\
+    (mn < smin \/ smax < mx -> calibrate_call integral mn mx w2p a = Err ErrValue)
+  end.
+Proof.
+  destruct a as [smin smax xs ys|]; [|reflexivity]. unfold calibrate_call, calibrate. split.
+  - intros H1 H2. apply Qle_bool_iff in H1, H2. rewrite H1, H2. reflexivity.
+  - intros [H|H].
+    + destruct (Qle_bool smin mn) eqn:E; [apply Qle_bool_iff in E; exfalso; exact (Qlt_not_le _ _ H E)|reflexivity].
+    + destruct (Qle_bool mx smax) eqn:E; [apply Qle_bool_iff in E; exfalso; exact (Qlt_not_le _ _ H E)|].
+      destruct (Qle_bool smin mn); reflexivity.
+Qed.
